@@ -73,6 +73,11 @@ def bulk_plans(draw):
     """Many jobs repaired by one invocation: the first task of a plan repeated with other values"""
     plan = draw(plans())
     plan["tasks"] = plan["tasks"][:1]
+    # (no chain of embedded outputs: a task that embeds the previous output k times makes the identifier
+    # of a configuration loaded from a parameter file cost k^depth - see DESIGN 5)
+    for m in plan["tasks"][0]["members"]:
+        if m["where"] == "producer":
+            m["where"] = "list"
     plan["modes"] = draw(st.sampled_from([["fix+cleanup"], ["fix", "fix+cleanup"]]))
     plan["pre"] = None
     plan["fault"] = None
